@@ -17,8 +17,17 @@ Section Assign.
   Lemma rmem_self x l : rmem x (radd x l) = true.
   Proof. apply rmem_radd_self. Qed.
 
+  Lemma identifier_has_no_star t : isidentifier t = true -> lstrip_star t = t.
+  Proof.
+    destruct t as [|ch r]; [reflexivity|]. cbn [isidentifier lstrip_star]. intros H.
+    apply Bool.andb_true_iff in H. destruct H as [H _].
+    destruct (Ascii.eqb ch "*"%char) eqn:E; [|reflexivity].
+    apply Ascii.eqb_eq in E. subst ch. discriminate H.
+  Qed.
+
   Theorem simple_assignment_is_complete c t pt v p :
     CFC v -> FuncAn.is_call v = false -> FuncAn.is_seq_tl v = false -> mem t ATTR_BUILTINS = false ->
+    isidentifier t = true ->
     NoCustom mexists modulename (ctx_add c (mkSym t KName) false) v ->
     forall s, v_ctx s = c ->
       let r := V (SAssign [EName t Store pt] v p) s in
@@ -29,7 +38,7 @@ Section Assign.
       /\ (forall nm, In (AGet, nm) (occs false v) -> reported nm (snd r))
       /\ (forall nm, In (ACall, nm) (occs false v) -> call_reported nm (snd r)).
   Proof.
-    intros Hcf Hcall Hseq Hb Hnc s Hc r. subst r.
+    intros Hcf Hcall Hseq Hb Hid Hnc s Hc r. subst r.
     (* the classifiers of the right-hand side all answer no *)
     assert (Hlam : lambda_in_rhs (Some v) = false).
     { unfold lambda_in_rhs. rewrite (cfc_not_lambda v Hcf), Hseq. reflexivity. }
@@ -39,7 +48,10 @@ Section Assign.
     { unfold class_in_rhs. rewrite Hcall, Hseq. reflexivity. }
     (* bind the target *)
     set (s1 := mkV (v_gets s) (v_sets s) (v_dels s) (v_calls s) (ctx_add (v_ctx s) (mkSym t KName) false) (v_warn s)).
-    assert (Hadd : mapM_ add_identifiers [EName t Store pt] s = (Ok tt, s1)) by reflexivity.
+    assert (Hadd : mapM_ add_identifiers [EName t Store pt] s = (Ok tt, s1)).
+    { assert (Hun : unravel_gen true (EName t Store pt) s = (Ok [t], s)) by reflexivity.
+      cbn [mapM_]. unfold add_identifiers. cbv beta iota delta [FuncAn.bind]. rewrite Hun. cbv beta iota.
+      cbn [map filter]. rewrite (identifier_has_no_star t Hid), Hid. reflexivity. }
     (* visit the target: a store never warns *)
     assert (Hp : plain (EName t Store pt) = true) by (unfold plain; cbn [spell_base]; rewrite Hb; reflexivity).
     assert (Hgv : get_and_verify_name (EName t Store pt) Store s1 = (Ok (t, t), s1)).
